@@ -53,9 +53,17 @@ def checkMaxAgainstSpec (c : Container) (implMax : String) : String :=
       (if implMax == "ok_" ++ toString n then "ok" else "SPEC: true maximum is " ++ toString n)
     else (if implMax == "overflow" then "ok" else "SPEC: true maximum " ++ toString n ++ " exceeds the address space")
   | .unbounded =>
-    if implMax.startsWith "ok_" then "SPEC: unbounded (reachable cycle) but a bound was reported" else "ok"
+    if implMax.startsWith "ok_" then "SPEC: unbounded (reachable cycle) but a bound was reported"
+    else if implMax.startsWith "missing_" then
+      "SPEC: a cycle is met before any missing definition, but a missing definition was reported"
+    else "ok"
   | .missing d =>
-    if implMax.startsWith "ok_" then "SPEC: definition " ++ hexOf d ++ " is missing but a bound was reported" else "ok"
+    if implMax.startsWith "ok_" then "SPEC: definition " ++ hexOf d ++ " is missing but a bound was reported"
+    else if implMax == "recursive" then
+      "SPEC: definition " ++ hexOf d ++ " is missing and no cycle is met before it, but recursion was reported"
+    else if implMax.startsWith "missing_" && implMax != "missing_" ++ hexOf d then
+      "SPEC: the missing definition is " ++ hexOf d ++ ", another one was named"
+    else "ok"
 
 def nats? (xs : List Sx) : Option (List Nat) :=
   xs.mapM fun x => match x with
